@@ -117,6 +117,7 @@ type coordinator struct {
 	mu sync.Mutex
 	// sites with a process death, per backend (evidence)
 	deaths map[string]int
+	seen   map[string]int
 }
 
 func (co *coordinator) absorb(rc record) (hangs []record) {
@@ -147,6 +148,9 @@ func (co *coordinator) absorb(rc record) (hangs []record) {
 		co.mu.Lock()
 		r.Extra("history_"+rc.Backend, rc.Sample)
 		co.mu.Unlock()
+		if rc.Backend == "diskpacked" || rc.Backend == "comp0" {
+			r.Sample(rc.Sample)
+		}
 	case "info":
 		for k, v := range rc.Counts {
 			r.Count(k, v)
@@ -158,9 +162,22 @@ func (co *coordinator) absorb(rc record) (hangs []record) {
 			hangs = append(hangs, rc)
 			return
 		}
-		r.Violation(rc.Sig, rc.What, rc.Replay)
+		co.violation(rc.Sig, rc.What, rc.Replay)
 	}
 	return
+}
+
+// violation forwards the first occurrence of a signature to ev (which keeps at most 40
+// witnesses per run) and counts the repeats, so that every distinct signature gets a line.
+func (co *coordinator) violation(sig, what string, replay any) {
+	co.mu.Lock()
+	co.seen[sig]++
+	first := co.seen[sig] == 1
+	co.mu.Unlock()
+	co.r.Note("violation_occurrences", sig)
+	if first {
+		co.r.Violation(sig, what, replay)
+	}
 }
 
 func childEnv(mode, backend string, start, max int) []string {
@@ -172,7 +189,7 @@ func (co *coordinator) enumChain(def *backendDef, limit time.Duration) {
 	r := co.r
 	start, deaths, confirms := 0, 0, 0
 	for round := 0; round < 2000; round++ {
-		out, code, timedOut := ev.Child(childEnv("enum", def.Name, start, 0), limit)
+		out, code, timedOut := runChild(childEnv("enum", def.Name, start, 0), limit)
 		p := parseChild(out)
 		var hangs []record
 		for _, rc := range p.recs {
@@ -185,7 +202,7 @@ func (co *coordinator) enumChain(def *backendDef, limit time.Duration) {
 				continue
 			}
 			confirms++
-			out2, _, _ := ev.Child(childEnv("enum", def.Name, hv.Site, 1), limit)
+			out2, _, _ := runChild(childEnv("enum", def.Name, hv.Site, 1), limit)
 			again := false
 			for _, rc := range parseChild(out2).recs {
 				if rc.T == "viol" && rc.Hang && rc.Sig == hv.Sig {
@@ -193,7 +210,7 @@ func (co *coordinator) enumChain(def *backendDef, limit time.Duration) {
 				}
 			}
 			if again {
-				r.Violation(hv.Sig, hv.What+" (reproduced in a fresh process)", hv.Replay)
+				co.violation(hv.Sig, hv.What+" (reproduced in a fresh process)", hv.Replay)
 			} else {
 				r.Inconclusive(fmt.Sprintf("%s: watchdog fired at site %d (%s) but did not reproduce", def.Name, hv.Site, hv.Sig))
 			}
@@ -210,7 +227,7 @@ func (co *coordinator) enumChain(def *backendDef, limit time.Duration) {
 			site, head, ok := crashSite(out)
 			what := fmt.Sprintf("%s: child ended (code %d, watchdog=%v) before any fault was injected: %s %s", def.Name, code, timedOut, head, site)
 			_ = ok
-			r.Inconclusive(what + "\n" + tail(out, 30))
+			r.Inconclusive(what + " | " + strings.ReplaceAll(tail(out, 6), "\n", " | "))
 			return
 		}
 		cid := caseID(def, p.lastSite)
@@ -227,16 +244,19 @@ func (co *coordinator) enumChain(def *backendDef, limit time.Duration) {
 			site, head, ok := crashSite(out)
 			frames := ev.PerkeepFrames(out)
 			w := map[string]any{"case_id": cid, "backend": def.Name, "exit_code": code, "crash": head, "perkeep_frames": strings.Split(frames, "\n")}
+			if os.Getenv("VERIF_ONLY") != "" {
+				r.Sample(w)
+			}
 			if def.Spec != nil {
 				w["spec"] = def.Spec.String()
 			}
 			switch {
 			case ok:
 				r.Note("outcomes", "process-died")
-				r.Violation("panic/"+site, fmt.Sprintf("[%s] the process died during the faulted history (site %s): %s\n%s", def.Name, cid, head, frames), w)
+				co.violation("panic/"+site, fmt.Sprintf("[%s] the process died during the faulted history (site %s): %s\n%s", def.Name, cid, head, frames), w)
 			case frames != "":
 				r.Note("outcomes", "process-died")
-				r.Violation("process-died/"+def.Label, fmt.Sprintf("[%s] the process died (code %d) during site %s: %s\n%s", def.Name, code, cid, head, frames), w)
+				co.violation("process-died/"+def.Label, fmt.Sprintf("[%s] the process died (code %d) during site %s: %s\n%s", def.Name, code, cid, head, frames), w)
 			default:
 				r.Inconclusive(fmt.Sprintf("%s: child died (code %d) during site %s without perkeep frames: %s\n%s", def.Name, code, cid, head, tail(out, 30)))
 			}
@@ -267,7 +287,7 @@ func (co *coordinator) gateChain(def *backendDef) {
 	r := co.r
 	var runs []record
 	for attempt := 0; attempt < 2; attempt++ {
-		out, code, timedOut := ev.Child(childEnv("gate", def.Name, 0, 0), 240*time.Second)
+		out, code, timedOut := runChild(childEnv("gate", def.Name, 0, 0), 240*time.Second)
 		p := parseChild(out)
 		var g *record
 		for i := range p.recs {
@@ -297,6 +317,9 @@ func (co *coordinator) gateChain(def *backendDef) {
 	r.Note("gate_scenarios", def.Label)
 	r.Count("gate_repetitions", 5*g.Counts["repetitions_per_phase"])
 	r.Distinct("gate|" + def.Name)
+	if os.Getenv("VERIF_ONLY") != "" || def.Name == "diskpacked" {
+		r.Sample(map[string]any{"case_id": "gate:" + def.Name + ";", "scenario": "3*capacity failing calls per op kind in one process, then a healthy call", "counts": g.Counts, "hung_phases": g.Notes})
+	}
 	for _, k := range []string{"stat", "remove", "enumerate", "fetch", "receive"} {
 		if g.Counts[k+"_healthy_call_failed"] > 0 {
 			r.Violation("later-op-fails/"+def.Label+"/repeated-"+k+"-failures",
@@ -340,7 +363,7 @@ func (co *coordinator) gateChain(def *backendDef) {
 // tmpfsChain runs the optional ENOSPC scenario (real short writes from a full tmpfs).
 func (co *coordinator) tmpfsChain(name string) {
 	r := co.r
-	out, code, timedOut := ev.Child(childEnv("tmpfs", name, 0, 0), 180*time.Second)
+	out, code, timedOut := runChild(childEnv("tmpfs", name, 0, 0), 180*time.Second)
 	p := parseChild(out)
 	var t *record
 	for i := range p.recs {
@@ -368,6 +391,9 @@ func (co *coordinator) tmpfsChain(name string) {
 	default:
 		r.Eval(t.Evals)
 		r.Note("tmpfs_enospc", name+":ran")
+		if os.Getenv("VERIF_ONLY") != "" {
+			r.Sample(map[string]any{"case_id": "tmpfs:" + name + ";", "counts": t.Counts})
+		}
 		for k, v := range t.Counts {
 			r.Count("tmpfs_"+name+"_"+k, v)
 		}
@@ -387,9 +413,14 @@ func run(r *ev.Run) {
 	r.Assume("lower-layer failures are injected only at harness-owned interfaces (blobserver.Storage leaves, sorted.KeyValue, files.VFS); diskpacked pack-file I/O itself is not faulted here")
 	r.Assume("a hang is reported only if it reproduces in a second fresh process; otherwise the case is inconclusive")
 
+	if _, err := selfExe(); err != nil {
+		r.Inconclusive("cannot make a private copy of the check binary: " + err.Error())
+		return
+	}
+	defer removeSelfExe()
 	only := os.Getenv("VERIF_ONLY")
 	defs := backendDefs(r.Rand("compositions"), r.Thorough())
-	co := &coordinator{r: r, deaths: map[string]int{}}
+	co := &coordinator{r: r, deaths: map[string]int{}, seen: map[string]int{}}
 	type job func()
 	var jobs []job
 	limit := 240 * time.Second
